@@ -75,6 +75,36 @@ def judge_pairs(run, V):
     return stats
 
 
+def shaped_cases(tier):
+    """conditions: every condition of an arm is evaluated, in both modes (an error in a later condition is an error even
+    when an earlier one is false); scan groups that do not participate in the match"""
+    import astgen as A
+    r = A.rng(22)
+    false_conds = [A.cond("bool", A.false()), A.cond("bool", A.call("eq", A.integer(1), A.integer(2))), A.cond("some", A.cap("v")),
+                   A.cond("bool", A.call("not", A.true())), A.cond("bool", A.call("is-null", A.cap("ret")))]
+    true_conds = [A.cond("bool", A.true()), A.cond("none", A.cap("v")), A.cond("bool", A.call("eq", A.string("a"), A.string("a")))]
+    bad_conds = [A.cond("bool", A.call("not", A.integer(1))), A.cond("bool", A.call("eq", A.string("a"), A.integer(1))), A.cond("bool", A.call("no-such-function")),
+                 A.cond("bool", A.call("eq", A.call("source-text", A.cap("v")), A.string("x"))), A.cond("bool", A.integer(3)), A.cond("bool", A.call("and", A.true(), A.null()))]
+    cases = []
+    n = 40 if tier == "quick" else 600
+    for k in range(n):
+        arms = []
+        for j in range(r.randint(1, 3)):
+            conds = [r.choice(false_conds + true_conds) for _ in range(r.randint(1, 2))]
+            if r.random() < 0.6:
+                conds.insert(r.randint(1, len(conds)), r.choice(bad_conds))
+            arms.append((conds, [A.node(A.var("a%d" % j))]))
+        if r.random() < 0.4:
+            arms.append(([], [A.node(A.var("e"))]))
+        stmts = [A.node(A.var("n")), A.let(A.var("u1"), A.cap("v")), A.let(A.var("u2"), A.cap("ret")), A.iff(*arms), A.attrn(A.var("n"), A.attr("after", A.true()))]
+        if r.random() < 0.5:
+            re_, subj = r.choice([("(a)|(b)", "ab"), ("x(y)?(z)", "xz"), ("(\\d)?([a-z])", "q7"), ("(?:(k)=)?(v)", "v;k=v")])
+            stmts.append(A.scan(A.string(subj), (re_.replace("\\\\", "\\"), [A.node(A.var("g")), A.attrn(A.var("g"), A.attr("g0", A.rcap(0)), A.attr("g1", A.rcap(1)), A.attr("g2", A.rcap(2)))])))
+        prog = A.file([A.stanza("(return_statement (_)? @v) @ret ", stmts)])
+        cases += A.both_modes("c02s-%d" % k, prog, r.choice([3, 11]))      # sources with return statements
+    return cases
+
+
 def run(tier):
     run = X.ExecRun(PROP, tier)
     d = C.workdir("c02")
@@ -83,6 +113,7 @@ def run(tier):
         raw = os.path.join(d, "raw_%s.ndjson" % profile)
         C.gen_cases(cnt, C.seed() * 1000 + 20 + k, raw, profile)
         run.add_batch("c02_" + profile, raw)
+    run.add_cases("c02_shaped", shaped_cases(tier))
     # design level: TLC enumerates programs itself and checks StrictLazyAgree (with isomorphism decided inside TLA+) on the machines;
     # the enumerated programs are then replayed into the library (spec -> code)
     import mcexec
